@@ -267,6 +267,48 @@ theorem encrypt_failure_is_an_error (c mac il iml ml dl dp ip imp mr nd rb ri nu
   simp only [KOut.count, KOut.written, List.filter, List.find?, String.reduceBEq, List.length]
   refine ⟨?_, ?_, ?_, ?_⟩ <;> repeat' (first | split | omega | rfl)
 
+/-! ## `enc_armor` (C10 / C19): PREFIX ‖ base64 (OUTER ‖ MAC ‖ INNER) ‖ SUFFIX, inside its buffer -/
+
+/-- **The armor is the prefix, then the base64 stream fed the outer layer, the MAC and the inner layer - in that order, each whole,
+    each output placed right after the previous one - then the final quantum and the suffix**; the credential length reported
+    counts the terminating NUL; both binary layers are wiped and freed. -/
+theorem armor_layout (ol ml il oml iml op mp ip omp imp mr r0 n1 r1 rc n2 r2 n3 r3 nf rf rc2 : Int) (bl : Int → Int)
+    (hsz : 0 ≤ ol ∧ 0 ≤ ml ∧ 0 ≤ il ∧ ol + ml + il ≤ 1500000) (hbl : 0 ≤ bl (ol + ml + il) ∧ bl (ol + ml + il) ≤ 2147480000)
+    (hn : 0 ≤ n1 ∧ 0 ≤ n2 ∧ 0 ≤ n3 ∧ 0 ≤ nf ∧ n1 + n2 + n3 + nf + 1 ≤ bl (ol + ml + il))
+    (h : (enc_armor ol ml il oml iml op mp ip omp imp mr r0 n1 r1 rc n2 r2 n3 r3 nf rf rc2 bl).ret = 0) :
+    let o := enc_armor ol ml il oml iml op mp ip omp imp mr r0 n1 r1 rc n2 r2 n3 r3 nf rf rc2 bl
+    o.events = [("malloc", [6 + bl (ol + ml + il) + 1]), ("wr", [0, 7, 2, 0]), ("base64_init", []),
+                ("base64_encode_update", [6, op, ol]), ("base64_encode_update", [6 + n1, mp, ml]),
+                ("base64_encode_update", [6 + n1 + n2, ip, il]), ("base64_encode_final", [6 + n1 + n2 + n3]), ("base64_cleanup", []),
+                ("wr", [6 + n1 + n2 + n3 + nf, 2, 2, 1]),
+                ("set:c.outer_mem", [0, wrapU64 oml]), ("free:c.outer_mem", []), ("set:c.inner_mem", [0, wrapU64 iml]), ("free:c.inner_mem", [])] ∧
+    o.get "c.outer_len" (-1) = 6 + n1 + n2 + n3 + nf + 1 + 1 ∧
+    -- the last store (suffix and its NUL) ends inside the allocation
+    6 + n1 + n2 + n3 + nf + 2 ≤ 6 + bl (ol + ml + il) + 1 := by
+  have e : wrapS32 ((wrapS32 (ol + ml)) + il) = ol + ml + il := by unfold wrapS32; omega
+  dsimp only
+  unfold enc_armor at h ⊢
+  simp only [e] at h ⊢
+  simp only [apply_ite KOut.ret] at h
+  simp only [apply_ite KOut.events, apply_ite (fun o => KOut.get o "c.outer_len" (-1))]
+  simp only [KOut.get, KOut.written, List.find?, String.reduceBEq, wrapS32] at h ⊢
+  repeat' (first | split at h | omega)
+  all_goals (simp [*, wrapU64] ; omega)
+
+example : enc_armor_srcNames = ["literal:MUNGE:", "literal::"] := by decide
+
+/-- **A failing base64 step fails the encode and frees the armor buffer once**; the binary layers are left alone. -/
+theorem armor_failure_is_an_error (ol ml il oml iml op mp ip omp imp mr r0 n1 r1 rc n2 r2 n3 r3 nf rf rc2 : Int) (bl : Int → Int)
+    (hmr : mr ≠ 0) (hf : r0 < 0 ∨ r1 < 0 ∨ r2 < 0 ∨ r3 < 0 ∨ rf < 0 ∨ rc2 < 0) :
+    let o := enc_armor ol ml il oml iml op mp ip omp imp mr r0 n1 r1 rc n2 r2 n3 r3 nf rf rc2 bl
+    o.ret = -1 ∧ o.count "free:buf" = 1 ∧ o.count "free:c.outer_mem" = 0 ∧ o.count "free:c.inner_mem" = 0 := by
+  dsimp only
+  unfold enc_armor
+  simp only [apply_ite KOut.ret, apply_ite (fun o => KOut.count o "free:buf"), apply_ite (fun o => KOut.count o "free:c.outer_mem"),
+    apply_ite (fun o => KOut.count o "free:c.inner_mem")]
+  simp only [KOut.count, List.filter, String.reduceBEq, List.length]
+  refine ⟨?_, ?_, ?_, ?_⟩ <;> repeat' (first | split | omega)
+
 /-! ## `dec_decompress` -/
 
 /-- **A compressed inner layer that does not decompress is the generic invalid-credential error, and its scratch buffer is
